@@ -120,6 +120,8 @@ func verbLevel(name string) string {
 
 func checkC01(c *Ctx) {
 	r := c.R
+	r.Rule("R17.3", "(shared with C17) a refused registration leaves the level tables untouched")
+	r.Rule("R17.4", "(shared with C17) a successful registration records the treated-as level for EVERY level value given (including the zero value PanicLevel), so that the admission rule gates the new level as the level it is treated as")
 	r.Rule("R01.1", "gate dominance: every static call path from a public entry point to the Write on the selected destination crosses the admitting edge of an Entry.Enabled/EnabledContext test on the emitting logger with the very level value passed on as the record's severity (Verbose in a `verbose` build is the documented exemption; WriteThru/WriteInternal are adapter plumbing judged under C15)")
 	r.Rule("R01.2", "admitted implies emitted: reaching an emission call depends on nothing but the admission test and an allow-listed set of configuration conditions (no extra guard, no early return between gate and emission)")
 	r.Rule("R01.3", "the admission rule itself: the decision function extracted from Level.Enabled equals the property's rule on every consistent assignment of its atoms; Entry.Enabled/EnabledContext return exactly Level.Enabled applied to the receiver's own level field; the initial treated-as table is OK,Success->Info, Fail->Error")
@@ -145,6 +147,7 @@ func checkC01(c *Ctx) {
 		c01SingleRule(c, p, m)
 		c01Verbs(c, p, m, tags)
 		c01DebugMode(c, p)
+		c17Register(c, p, m)
 	}
 	c.Floor["R01.1"] = 58
 	c.Floor["R01.5"] = 52
